@@ -44,6 +44,7 @@ func runC10(c *core.Ctx) {
 	h.assertIdiom("C10.idiom assert-panics")
 	c.Clause("C10.1 value.set: rename -> dir sync -> memory")
 	h.valueSetOrder("C10.1 value.set order")
+	h.syncDirSyncs("C10.1b syncDir")
 	h.setterPersistThenPublish("C10.1b persist-then-publish", "raft:(*storage).setTerm", ">")
 	h.setterPersistThenPublish("C10.1b persist-then-publish", "raft:(*storage).setVotedFor", ">=")
 	c.Clause("C10.2 snapshotSink.done publish order")
